@@ -9,53 +9,124 @@ namespace DaeVerif.C13.TQ
 section upd
 variable (s : St)
 
-@[simp] theorem setPc_prods (p i : PId) (pc : PPC) :
+@[simp] theorem setPc_prods (p i : Nat) (pc : PPC) :
     (setPc s p pc).prods i = if i = p then { s.prods p with pc := pc } else s.prods i := rfl
-@[simp] theorem setPc_map (p : PId) (pc : PPC) : (setPc s p pc).map = s.map := rfl
-@[simp] theorem setPc_nq (p : PId) (pc : PPC) : (setPc s p pc).nq = s.nq := rfl
-@[simp] theorem setPc_qs (p : PId) (pc : PPC) : (setPc s p pc).qs = s.qs := rfl
-@[simp] theorem setPc_nch (p : PId) (pc : PPC) : (setPc s p pc).nch = s.nch := rfl
-@[simp] theorem setPc_chans (p : PId) (pc : PPC) : (setPc s p pc).chans = s.chans := rfl
-@[simp] theorem setPc_pool (p : PId) (pc : PPC) : (setPc s p pc).pool = s.pool := rfl
-@[simp] theorem setPc_np (p : PId) (pc : PPC) : (setPc s p pc).np = s.np := rfl
-@[simp] theorem setPc_accepted (p : PId) (pc : PPC) : (setPc s p pc).accepted = s.accepted := rfl
-@[simp] theorem setPc_done (p : PId) (pc : PPC) : (setPc s p pc).done = s.done := rfl
+@[simp] theorem setPc_map (p : Nat) (pc : PPC) : (setPc s p pc).map = s.map := rfl
+@[simp] theorem setPc_nq (p : Nat) (pc : PPC) : (setPc s p pc).nq = s.nq := rfl
+@[simp] theorem setPc_qs (p : Nat) (pc : PPC) : (setPc s p pc).qs = s.qs := rfl
+@[simp] theorem setPc_nch (p : Nat) (pc : PPC) : (setPc s p pc).nch = s.nch := rfl
+@[simp] theorem setPc_chans (p : Nat) (pc : PPC) : (setPc s p pc).chans = s.chans := rfl
+@[simp] theorem setPc_pool (p : Nat) (pc : PPC) : (setPc s p pc).pool = s.pool := rfl
+@[simp] theorem setPc_np (p : Nat) (pc : PPC) : (setPc s p pc).np = s.np := rfl
+@[simp] theorem setPc_accepted (p : Nat) (pc : PPC) : (setPc s p pc).accepted = s.accepted := rfl
+@[simp] theorem setPc_done (p : Nat) (pc : PPC) : (setPc s p pc).done = s.done := rfl
 
-@[simp] theorem setQ_qs (q i : QId) (Q : Queue) :
+@[simp] theorem setQ_qs (q i : Nat) (Q : Queue) :
     (setQ s q Q).qs i = if i = q then Q else s.qs i := rfl
-@[simp] theorem setQ_map (q : QId) (Q : Queue) : (setQ s q Q).map = s.map := rfl
-@[simp] theorem setQ_nq (q : QId) (Q : Queue) : (setQ s q Q).nq = s.nq := rfl
-@[simp] theorem setQ_prods (q : QId) (Q : Queue) : (setQ s q Q).prods = s.prods := rfl
-@[simp] theorem setQ_nch (q : QId) (Q : Queue) : (setQ s q Q).nch = s.nch := rfl
-@[simp] theorem setQ_chans (q : QId) (Q : Queue) : (setQ s q Q).chans = s.chans := rfl
-@[simp] theorem setQ_pool (q : QId) (Q : Queue) : (setQ s q Q).pool = s.pool := rfl
-@[simp] theorem setQ_np (q : QId) (Q : Queue) : (setQ s q Q).np = s.np := rfl
-@[simp] theorem setQ_accepted (q : QId) (Q : Queue) : (setQ s q Q).accepted = s.accepted := rfl
-@[simp] theorem setQ_done (q : QId) (Q : Queue) : (setQ s q Q).done = s.done := rfl
+@[simp] theorem setQ_map (q : Nat) (Q : Queue) : (setQ s q Q).map = s.map := rfl
+@[simp] theorem setQ_nq (q : Nat) (Q : Queue) : (setQ s q Q).nq = s.nq := rfl
+@[simp] theorem setQ_prods (q : Nat) (Q : Queue) : (setQ s q Q).prods = s.prods := rfl
+@[simp] theorem setQ_nch (q : Nat) (Q : Queue) : (setQ s q Q).nch = s.nch := rfl
+@[simp] theorem setQ_chans (q : Nat) (Q : Queue) : (setQ s q Q).chans = s.chans := rfl
+@[simp] theorem setQ_pool (q : Nat) (Q : Queue) : (setQ s q Q).pool = s.pool := rfl
+@[simp] theorem setQ_np (q : Nat) (Q : Queue) : (setQ s q Q).np = s.np := rfl
+@[simp] theorem setQ_accepted (q : Nat) (Q : Queue) : (setQ s q Q).accepted = s.accepted := rfl
+@[simp] theorem setQ_done (q : Nat) (Q : Queue) : (setQ s q Q).done = s.done := rfl
 
-@[simp] theorem setChan_chans (c i : ChId) (l : List Task) :
+@[simp] theorem setChan_chans (c i : Nat) (l : List Nat) :
     (setChan s c l).chans i = if i = c then l else s.chans i := rfl
-@[simp] theorem setChan_map (c : ChId) (l : List Task) : (setChan s c l).map = s.map := rfl
-@[simp] theorem setChan_nq (c : ChId) (l : List Task) : (setChan s c l).nq = s.nq := rfl
-@[simp] theorem setChan_qs (c : ChId) (l : List Task) : (setChan s c l).qs = s.qs := rfl
-@[simp] theorem setChan_prods (c : ChId) (l : List Task) : (setChan s c l).prods = s.prods := rfl
-@[simp] theorem setChan_nch (c : ChId) (l : List Task) : (setChan s c l).nch = s.nch := rfl
-@[simp] theorem setChan_pool (c : ChId) (l : List Task) : (setChan s c l).pool = s.pool := rfl
-@[simp] theorem setChan_np (c : ChId) (l : List Task) : (setChan s c l).np = s.np := rfl
-@[simp] theorem setChan_accepted (c : ChId) (l : List Task) : (setChan s c l).accepted = s.accepted := rfl
-@[simp] theorem setChan_done (c : ChId) (l : List Task) : (setChan s c l).done = s.done := rfl
+@[simp] theorem setChan_map (c : Nat) (l : List Nat) : (setChan s c l).map = s.map := rfl
+@[simp] theorem setChan_nq (c : Nat) (l : List Nat) : (setChan s c l).nq = s.nq := rfl
+@[simp] theorem setChan_qs (c : Nat) (l : List Nat) : (setChan s c l).qs = s.qs := rfl
+@[simp] theorem setChan_prods (c : Nat) (l : List Nat) : (setChan s c l).prods = s.prods := rfl
+@[simp] theorem setChan_nch (c : Nat) (l : List Nat) : (setChan s c l).nch = s.nch := rfl
+@[simp] theorem setChan_pool (c : Nat) (l : List Nat) : (setChan s c l).pool = s.pool := rfl
+@[simp] theorem setChan_np (c : Nat) (l : List Nat) : (setChan s c l).np = s.np := rfl
+@[simp] theorem setChan_accepted (c : Nat) (l : List Nat) : (setChan s c l).accepted = s.accepted := rfl
+@[simp] theorem setChan_done (c : Nat) (l : List Nat) : (setChan s c l).done = s.done := rfl
 
-@[simp] theorem setMap_map (k i : Key) (v : Option QId) :
+@[simp] theorem setMap_map (k i : Nat) (v : Option Nat) :
     (setMap s k v).map i = if i = k then v else s.map i := rfl
-@[simp] theorem setMap_nq (k : Key) (v : Option QId) : (setMap s k v).nq = s.nq := rfl
-@[simp] theorem setMap_qs (k : Key) (v : Option QId) : (setMap s k v).qs = s.qs := rfl
-@[simp] theorem setMap_prods (k : Key) (v : Option QId) : (setMap s k v).prods = s.prods := rfl
-@[simp] theorem setMap_nch (k : Key) (v : Option QId) : (setMap s k v).nch = s.nch := rfl
-@[simp] theorem setMap_chans (k : Key) (v : Option QId) : (setMap s k v).chans = s.chans := rfl
-@[simp] theorem setMap_pool (k : Key) (v : Option QId) : (setMap s k v).pool = s.pool := rfl
-@[simp] theorem setMap_np (k : Key) (v : Option QId) : (setMap s k v).np = s.np := rfl
-@[simp] theorem setMap_accepted (k : Key) (v : Option QId) : (setMap s k v).accepted = s.accepted := rfl
-@[simp] theorem setMap_done (k : Key) (v : Option QId) : (setMap s k v).done = s.done := rfl
+@[simp] theorem setMap_nq (k : Nat) (v : Option Nat) : (setMap s k v).nq = s.nq := rfl
+@[simp] theorem setMap_qs (k : Nat) (v : Option Nat) : (setMap s k v).qs = s.qs := rfl
+@[simp] theorem setMap_prods (k : Nat) (v : Option Nat) : (setMap s k v).prods = s.prods := rfl
+@[simp] theorem setMap_nch (k : Nat) (v : Option Nat) : (setMap s k v).nch = s.nch := rfl
+@[simp] theorem setMap_chans (k : Nat) (v : Option Nat) : (setMap s k v).chans = s.chans := rfl
+@[simp] theorem setMap_pool (k : Nat) (v : Option Nat) : (setMap s k v).pool = s.pool := rfl
+@[simp] theorem setMap_np (k : Nat) (v : Option Nat) : (setMap s k v).np = s.np := rfl
+@[simp] theorem setMap_accepted (k : Nat) (v : Option Nat) : (setMap s k v).accepted = s.accepted := rfl
+@[simp] theorem setMap_done (k : Nat) (v : Option Nat) : (setMap s k v).done = s.done := rfl
+
+@[simp] theorem newChan_chans (i : Nat) : (newChan s).chans i = if i = s.nch then [] else s.chans i := rfl
+@[simp] theorem newChan_nch : (newChan s).nch = s.nch + 1 := rfl
+@[simp] theorem newChan_map : (newChan s).map = s.map := rfl
+@[simp] theorem newChan_nq : (newChan s).nq = s.nq := rfl
+@[simp] theorem newChan_qs : (newChan s).qs = s.qs := rfl
+@[simp] theorem newChan_prods : (newChan s).prods = s.prods := rfl
+@[simp] theorem newChan_pool : (newChan s).pool = s.pool := rfl
+@[simp] theorem newChan_np : (newChan s).np = s.np := rfl
+@[simp] theorem newChan_accepted : (newChan s).accepted = s.accepted := rfl
+@[simp] theorem newChan_done : (newChan s).done = s.done := rfl
+
+@[simp] theorem setPool_pool (l : List Nat) : (setPool s l).pool = l := rfl
+@[simp] theorem setPool_map (l : List Nat) : (setPool s l).map = s.map := rfl
+@[simp] theorem setPool_nq (l : List Nat) : (setPool s l).nq = s.nq := rfl
+@[simp] theorem setPool_qs (l : List Nat) : (setPool s l).qs = s.qs := rfl
+@[simp] theorem setPool_prods (l : List Nat) : (setPool s l).prods = s.prods := rfl
+@[simp] theorem setPool_nch (l : List Nat) : (setPool s l).nch = s.nch := rfl
+@[simp] theorem setPool_chans (l : List Nat) : (setPool s l).chans = s.chans := rfl
+@[simp] theorem setPool_np (l : List Nat) : (setPool s l).np = s.np := rfl
+@[simp] theorem setPool_accepted (l : List Nat) : (setPool s l).accepted = s.accepted := rfl
+@[simp] theorem setPool_done (l : List Nat) : (setPool s l).done = s.done := rfl
+
+@[simp] theorem addQueue_nq (k : Nat) (ch : Nat) : (addQueue s k ch).nq = s.nq + 1 := rfl
+@[simp] theorem addQueue_qs (k : Nat) (ch : Nat) (i : Nat) :
+    (addQueue s k ch).qs i = if i = s.nq then ⟨k, ch, [], false, 0, .idle⟩ else s.qs i := rfl
+@[simp] theorem addQueue_map (k : Nat) (ch : Nat) (i : Nat) :
+    (addQueue s k ch).map i = if i = k then some s.nq else s.map i := rfl
+@[simp] theorem addQueue_prods (k : Nat) (ch : Nat) : (addQueue s k ch).prods = s.prods := rfl
+@[simp] theorem addQueue_nch (k : Nat) (ch : Nat) : (addQueue s k ch).nch = s.nch := rfl
+@[simp] theorem addQueue_chans (k : Nat) (ch : Nat) : (addQueue s k ch).chans = s.chans := rfl
+@[simp] theorem addQueue_pool (k : Nat) (ch : Nat) : (addQueue s k ch).pool = s.pool := rfl
+@[simp] theorem addQueue_np (k : Nat) (ch : Nat) : (addQueue s k ch).np = s.np := rfl
+@[simp] theorem addQueue_accepted (k : Nat) (ch : Nat) : (addQueue s k ch).accepted = s.accepted := rfl
+@[simp] theorem addQueue_done (k : Nat) (ch : Nat) : (addQueue s k ch).done = s.done := rfl
+
+@[simp] theorem logAccept_accepted (k : Nat) (t : Nat) (i : Nat) :
+    (logAccept s k t).accepted i = if i = k then s.accepted k ++ [t] else s.accepted i := rfl
+@[simp] theorem logAccept_map (k : Nat) (t : Nat) : (logAccept s k t).map = s.map := rfl
+@[simp] theorem logAccept_nq (k : Nat) (t : Nat) : (logAccept s k t).nq = s.nq := rfl
+@[simp] theorem logAccept_qs (k : Nat) (t : Nat) : (logAccept s k t).qs = s.qs := rfl
+@[simp] theorem logAccept_prods (k : Nat) (t : Nat) : (logAccept s k t).prods = s.prods := rfl
+@[simp] theorem logAccept_nch (k : Nat) (t : Nat) : (logAccept s k t).nch = s.nch := rfl
+@[simp] theorem logAccept_chans (k : Nat) (t : Nat) : (logAccept s k t).chans = s.chans := rfl
+@[simp] theorem logAccept_pool (k : Nat) (t : Nat) : (logAccept s k t).pool = s.pool := rfl
+@[simp] theorem logAccept_np (k : Nat) (t : Nat) : (logAccept s k t).np = s.np := rfl
+@[simp] theorem logAccept_done (k : Nat) (t : Nat) : (logAccept s k t).done = s.done := rfl
+
+@[simp] theorem logDone_done (k : Nat) (t : Nat) (i : Nat) :
+    (logDone s k t).done i = if i = k then s.done k ++ [t] else s.done i := rfl
+@[simp] theorem logDone_map (k : Nat) (t : Nat) : (logDone s k t).map = s.map := rfl
+@[simp] theorem logDone_nq (k : Nat) (t : Nat) : (logDone s k t).nq = s.nq := rfl
+@[simp] theorem logDone_qs (k : Nat) (t : Nat) : (logDone s k t).qs = s.qs := rfl
+@[simp] theorem logDone_prods (k : Nat) (t : Nat) : (logDone s k t).prods = s.prods := rfl
+@[simp] theorem logDone_nch (k : Nat) (t : Nat) : (logDone s k t).nch = s.nch := rfl
+@[simp] theorem logDone_chans (k : Nat) (t : Nat) : (logDone s k t).chans = s.chans := rfl
+@[simp] theorem logDone_pool (k : Nat) (t : Nat) : (logDone s k t).pool = s.pool := rfl
+@[simp] theorem logDone_np (k : Nat) (t : Nat) : (logDone s k t).np = s.np := rfl
+@[simp] theorem logDone_accepted (k : Nat) (t : Nat) : (logDone s k t).accepted = s.accepted := rfl
+
+@[simp] theorem addProd_np (k : Nat) : (addProd s k).np = s.np + 1 := rfl
+@[simp] theorem addProd_prods (k : Nat) (i : Nat) :
+    (addProd s k).prods i = if i = s.np then ⟨k, .start⟩ else s.prods i := rfl
+@[simp] theorem addProd_map (k : Nat) : (addProd s k).map = s.map := rfl
+@[simp] theorem addProd_nq (k : Nat) : (addProd s k).nq = s.nq := rfl
+@[simp] theorem addProd_qs (k : Nat) : (addProd s k).qs = s.qs := rfl
+@[simp] theorem addProd_nch (k : Nat) : (addProd s k).nch = s.nch := rfl
+@[simp] theorem addProd_chans (k : Nat) : (addProd s k).chans = s.chans := rfl
+@[simp] theorem addProd_pool (k : Nat) : (addProd s k).pool = s.pool := rfl
+@[simp] theorem addProd_accepted (k : Nat) : (addProd s k).accepted = s.accepted := rfl
+@[simp] theorem addProd_done (k : Nat) : (addProd s k).done = s.done := rfl
 
 end upd
 
@@ -127,18 +198,18 @@ theorem cnt_eq_zero : ∀ (n : Nat) (f : Nat → Bool), cnt n f = 0 → ∀ i, i
     · exact ih f (by omega) i (by omega)
 
 /-- producers that hold a reference on queue q and have not enqueued yet -/
-def holders (s : St) (q : QId) : Nat := cnt s.np (fun p => decide ((s.prods p).pc = .enq q))
+def holders (s : St) (q : Nat) : Nat := cnt s.np (fun p => decide ((s.prods p).pc = .enq q))
 
 /-! ### predicates on program counters -/
 
 /-- the producer's pc mentions queue q -/
-def PcQ : PPC → QId → Prop
+def PcQ : PPC → Nat → Prop
   | .fastRead q', q | .fastCas q' _, q | .putBack _ q', q | .slowRead q', q | .slowCas q' _, q
   | .slowDel q', q | .addRef q', q | .enq q', q | .rel q', q => q' = q
   | _, _ => False
 
 /-- the producer privately holds channel c -/
-def PcC : PPC → ChId → Prop
+def PcC : PPC → Nat → Prop
   | .los c', c | .putBack c' _, c => c' = c
   | _, _ => False
 
@@ -167,7 +238,7 @@ def Enqueued : PPC → Prop
 /-! ### the invariant (repaired protocol) -/
 
 /-- facts about one queue -/
-structure QInv (s : St) (q : QId) : Prop where
+structure QInv (s : St) (q : Nat) : Prop where
   ch_lt : (s.qs q).ch < s.nch
   /-- `refs` is negative exactly from the claiming CAS on -/
   phase : (s.qs q).refs < 0 ↔ Claimed (s.qs q).cpc
@@ -185,7 +256,7 @@ structure QInv (s : St) (q : QId) : Prop where
   mode : (s.qs q).ovfMode = false → (s.qs q).ovf = []
 
 /-- facts about one producer -/
-structure PInv (s : St) (p : PId) : Prop where
+structure PInv (s : St) (p : Nat) : Prop where
   pc_q : ∀ q, PcQ (s.prods p).pc q → q < s.nq ∧ (s.qs q).key = (s.prods p).key
   pc_c : ∀ c, PcC (s.prods p).pc c → c < s.nch ∧ c ∉ s.pool ∧ s.chans c = [] ∧
     ∀ q, q < s.nq → (s.qs q).cpc ≠ .exited → (s.qs q).ch ≠ c
@@ -222,7 +293,7 @@ theorem inv_init : Inv init := by
 
 /-! ### frame lemmas -/
 
-theorem QInv.frame {s s' : St} {q : QId} (h : QInv s q) (hq : s'.qs q = s.qs q) (hn : s.nch ≤ s'.nch)
+theorem QInv.frame {s s' : St} {q : Nat} (h : QInv s q) (hq : s'.qs q = s.qs q) (hn : s.nch ≤ s'.nch)
     (hm : s'.map (s.qs q).key = some q ↔ s.map (s.qs q).key = some q)
     (hp : (s.qs q).cpc ≠ .exited → (s.qs q).ch ∈ s'.pool → (s.qs q).ch ∈ s.pool)
     (hh : holders s' q = holders s q)
@@ -243,7 +314,7 @@ theorem QInv.frame {s s' : St} {q : QId} (h : QInv s q) (hq : s'.qs q = s.qs q) 
   · rw [hq]; intro h0 he; rw [hc he]; exact h.claimed_chan h0 he
   · rw [hq]; exact h.mode
 
-theorem PInv.frame {s s' : St} {p : PId} (h : PInv s p) (hp : s'.prods p = s.prods p)
+theorem PInv.frame {s s' : St} {p : Nat} (h : PInv s p) (hp : s'.prods p = s.prods p)
     (hnq : s.nq ≤ s'.nq) (hkey : ∀ q, q < s.nq → (s'.qs q).key = (s.qs q).key)
     (hnch : s.nch ≤ s'.nch)
     (hpool : ∀ c, PcC (s.prods p).pc c → c ∈ s'.pool → c ∈ s.pool)
@@ -264,7 +335,7 @@ theorem PInv.frame {s s' : St} {p : PId} (h : PInv s p) (hp : s'.prods p = s.pro
   · rw [hp]; intro q hq; rw [hidle q hq]; exact h.addref_idle q hq
   · rw [hp]; exact h.cas_nonneg
 
-theorem pending_frame {s s' : St} {k : Key} (hm : s'.map k = s.map k)
+theorem pending_frame {s s' : St} {k : Nat} (hm : s'.map k = s.map k)
     (hq : ∀ q, s.map k = some q → s'.qs q = s.qs q ∧ s'.chans (s.qs q).ch = s.chans (s.qs q).ch) :
     pending s' k = pending s k := by
   unfold pending
@@ -275,7 +346,7 @@ theorem pending_frame {s s' : St} {k : Key} (hm : s'.map k = s.map k)
     obtain ⟨a, b⟩ := hq q hmk
     simp only [a, b]
 
-theorem holders_upd (s s' : St) (p : PId) (q : QId) (hp : p < s.np) (hn : s'.np = s.np)
+theorem holders_upd (s s' : St) (p : Nat) (q : Nat) (hp : p < s.np) (hn : s'.np = s.np)
     (hpr : ∀ i, i ≠ p → (s'.prods i).pc = (s.prods i).pc) :
     holders s' q + (if (s.prods p).pc = .enq q then 1 else 0)
       = holders s q + (if (s'.prods p).pc = .enq q then 1 else 0) := by
@@ -293,7 +364,7 @@ theorem holders_upd (s s' : St) (p : PId) (q : QId) (hp : p < s.np) (hn : s'.np 
   simp only [decide_eq_true_eq] at this
   exact this
 
-theorem holders_same (s s' : St) (q : QId) (hn : s'.np = s.np)
+theorem holders_same (s s' : St) (q : Nat) (hn : s'.np = s.np)
     (hpr : ∀ i, i < s.np → (s'.prods i).pc = (s.prods i).pc) : holders s' q = holders s q := by
   unfold holders
   rw [hn]
@@ -301,7 +372,7 @@ theorem holders_same (s s' : St) (q : QId) (hn : s'.np = s.np)
   intro i hi
   rw [hpr i hi]
 
-theorem holders_pos {s : St} {p : PId} {q : QId} (hp : p < s.np) (h : (s.prods p).pc = .enq q) :
+theorem holders_pos {s : St} {p : Nat} {q : Nat} (hp : p < s.np) (h : (s.prods p).pc = .enq q) :
     1 ≤ holders s q :=
   cnt_pos_of s.np _ p hp (by simp [h])
 
